@@ -31,7 +31,8 @@ def base_scenario(rng, **o):
     dt = o.get("dt", rng.choice([32, 64]))
     dx = o.get("dx", 128.0)
     dy = o.get("dy", dx)
-    imax, jmax, N = o.get("imax", 10), o.get("jmax", 9), 2
+    shape = o.get("shape") or rng.choice([(10, 9), (10, 9), (8, 13), (13, 8)])
+    imax, jmax, N = o.get("imax", shape[0]), o.get("jmax", shape[1]), 2
     M = [[1] * imax for _ in range(jmax)]
     for _ in range(o.get("nland", rng.randrange(0, 7))):
         M[rng.randrange(1, jmax - 1)][rng.randrange(1, imax - 1)] = 0
@@ -58,14 +59,23 @@ def base_scenario(rng, **o):
     sc["fm"] = o.get("fm", dict(a=rng.randrange(0, 6), b=rng.randrange(0, 6), c=rng.randrange(0, 30), d=rng.randrange(0, 20), e=rng.randrange(0, 3)))
     sc["pack"] = rng.random() < 0.2
     sc["hasscal"] = o.get("hasscal", rng.random() < 0.4)
-    sc["subgrid"] = o.get("subgrid")
+    sub = o.get("subgrid")
+    if sub is None and o.get("allow_subgrid", True) and rng.random() < 0.3:
+        i0 = rng.randrange(1, 3); i1 = rng.randrange(max(i0 + 5, imax - 3), imax)
+        j0 = rng.randrange(1, 3); j1 = rng.randrange(max(j0 + 5, jmax - 3), jmax)
+        sub = [i0, i1, j0, j1]
+    sc["subgrid"] = sub
     sc["adv"] = o.get("adv", rng.choice(["EF", "RK2", "RK4"]))
     sc["hasref"] = rng.random() < 0.6
     sc["ref"] = rng.choice([0, base_t - 3600, base_t + 5 * dt])
     # release
     cont = o.get("cont", rng.random() < 0.4)
     fq = rng.choice([1, 2, 3]) if cont else 1
-    sea = [(i, j) for j in range(2, jmax - 2) for i in range(2, imax - 2) if M[j][i] > 0]
+    si0, si1, sj0, sj1 = sub if sub else (1, imax - 1, 1, jmax - 1)
+    sea = [(i, j) for j in range(sj0 + 1, sj1 - 2) for i in range(si0 + 1, si1 - 2) if M[j][i] > 0]
+    if not sea:
+        M[sj0 + 1][si0 + 1] = 1
+        sea = [(si0 + 1, sj0 + 1)]
     ntimes = o.get("ntimes", rng.choice([1, 2, 3]))
     if cont:
         first = rng.randrange(-2, max(1, nsteps))
